@@ -8,30 +8,30 @@
 (*   FreshObj     a fresh zero struct                                      *)
 (*   NewEmpty     an object with the schema's attribute types, no values   *)
 (*   LoadPlan p   a plan / state / config decoded by the framework         *)
-(*   LoadRaw p    a hand-built object (payload under null, corruption)     *)
+(*   LoadRaw p    a hand-built object (payload under null, corruption,     *)
+(*                attribute types removed)                                 *)
 (*   CopyTo       Copy<T>ToTerraform(obj, &tf)                             *)
 (*   CopyFrom     Copy<T>FromTerraform(tf, obj)                            *)
 (* The next-state relation of the two copy actions is the Impl model       *)
-(* (CopyTo.tla / CopyFrom.tla); the Contract clauses are evaluated on      *)
-(* every such transition and collected in `viol` (Impl => Contract at the  *)
-(* design level).  A model configuration restricts behaviours to a Script  *)
-(* (sequence of action names) so that each property family explores       *)
-(* exactly the histories its quantifier names; `hist` is the replay vector *)
-(* handed to the real code.                                                *)
+(* (CopyTo.tla / CopyFrom.tla); Judge applies the Contract to every        *)
+(* transition and the failing clauses are collected in `viol`              *)
+(* (Impl => Contract at the design level).  A model configuration          *)
+(* restricts behaviours to a Script (sequence of action names) so that     *)
+(* each property family explores exactly the histories its quantifier      *)
+(* names; `hist` is the replay vector handed to the real code.             *)
 (***************************************************************************)
-EXTENDS Gen, Json
+EXTENDS Judge, Json
 
 CONSTANTS Shapes,    \* sequence of [id, d, cfg, root]
           Script,    \* sequence of action names
           Deep,      \* thorough value sets?
           Props      \* property ids whose clauses are evaluated
 
-VARIABLES sh, M, obj, tf, dg, pn, pc, hist, viol, rt
+VARIABLES sh, M, obj, tf, dg, pn, pc, hist, viol, aux
 
-vars == <<sh, M, obj, tf, dg, pn, pc, hist, viol, rt>>
+vars == <<sh, M, obj, tf, dg, pn, pc, hist, viol, aux>>
 
 NilObject == VObj(FALSE, FALSE, EmptyFn, EmptyFn, TRUE)
-NoRT == [armed |-> FALSE, orig |-> Nil]
 NoArg == Nil
 
 Step(e, arg) == [ev |-> e, arg |-> arg]
@@ -42,68 +42,37 @@ Init ==
   /\ sh \in {i \in DOMAIN Shapes : Built(i).ok}
   /\ M = Built(sh).m
   /\ obj = M.zero /\ tf = NilObject /\ dg = <<>> /\ pn = FALSE
-  /\ pc = 1 /\ hist = <<>> /\ viol = {} /\ rt = NoRT
+  /\ pc = 1 /\ hist = <<>> /\ viol = {} /\ aux = NoAux
 
 At(e) == pc <= Len(Script) /\ Script[pc] = e /\ ~pn
-Advance(e, arg) == pc' = pc + 1 /\ hist' = Append(hist, Step(e, arg))
 
-Wants(p) == p \in Props
+\* a transition: event e with argument arg leading to (o2, t2) with diagnostics d2 / panic p2
+Do(e, arg, o2, t2, d2, p2) ==
+  LET j == Judge(e, Props, M, M.tt, aux, [pobj |-> obj, ptf |-> tf, obj |-> o2, tf |-> t2, dg |-> d2, pn |-> p2, conv |-> TRUE])
+  IN /\ pc' = pc + 1 /\ hist' = Append(hist, Step(e, arg))
+     /\ obj' = o2 /\ tf' = t2 /\ dg' = d2 /\ pn' = p2
+     /\ viol' = viol \cup j.viol
+     \* the memo only serves trace validation (pairing across behaviours); one behaviour never needs it
+     /\ aux' = [j.aux EXCEPT !.memo = EmptyFn]
+     /\ UNCHANGED <<sh, M>>
 
-IsEmptyTyped(tv) == tv.k = "obj" /\ ~tv.null /\ ~tv.unk /\ tv.at = M.tt.at /\ DOMAIN tv.attrs = {}
+SetObj(v) == At("SetObj") /\ Do("SetObj", v, v, tf, <<>>, FALSE)
+FreshObj == At("FreshObj") /\ Do("FreshObj", NoArg, M.zero, tf, <<>>, FALSE)
+NewEmpty == At("NewEmpty") /\ Do("NewEmpty", NoArg, obj, EmptyObject(M.tt.at), <<>>, FALSE)
+Load(e, p) == At(e) /\ Do(e, p, obj, p, <<>>, FALSE)
+CopyTo == At("CopyTo") /\ LET r == ToMsg(M, obj, tf) IN Do("CopyTo", NoArg, obj, r.tf, r.dg, r.pn)
+CopyFrom == At("CopyFrom") /\ LET r == FromMsg(M, tf, obj) IN Do("CopyFrom", NoArg, r.obj, tf, r.dg, r.pn)
 
-SetObj(v) ==
-  /\ At("SetObj") /\ Advance("SetObj", v)
-  /\ obj' = v /\ rt' = NoRT
-  /\ UNCHANGED <<sh, M, tf, dg, pn, viol>>
-
-FreshObj ==
-  /\ At("FreshObj") /\ Advance("FreshObj", NoArg)
-  /\ obj' = M.zero
-  /\ UNCHANGED <<sh, M, tf, dg, pn, viol, rt>>
-
-NewEmpty ==
-  /\ At("NewEmpty") /\ Advance("NewEmpty", NoArg)
-  /\ tf' = EmptyObject(M.tt.at) /\ rt' = NoRT
-  /\ UNCHANGED <<sh, M, obj, dg, pn, viol>>
-
-Load(e, p) ==
-  /\ At(e) /\ Advance(e, p)
-  /\ tf' = p /\ rt' = NoRT
-  /\ UNCHANGED <<sh, M, obj, dg, pn, viol>>
-
-CopyTo ==
-  /\ At("CopyTo") /\ Advance("CopyTo", NoArg)
-  /\ LET r == ToMsg(M, obj, tf)
-         fromEmpty == IsEmptyTyped(tf)
-         \* at the design level the framework conversion observer is implied by typed + present
-         ctx == [M |-> M, tt |-> M.tt, obj |-> obj, tf |-> r.tf, dg |-> r.dg, pn |-> r.pn, conv |-> TRUE]
-     IN /\ tf' = r.tf /\ dg' = r.dg /\ pn' = r.pn
-        /\ rt' = IF fromEmpty /\ ~r.pn THEN [armed |-> TRUE, orig |-> obj] ELSE NoRT
-        /\ viol' = viol
-             \cup (IF fromEmpty /\ Wants("C03") THEN C03(ctx) ELSE {})
-             \cup (IF fromEmpty /\ Wants("C20") THEN C20(ctx) ELSE {})
-             \cup (IF fromEmpty /\ Wants("C07") /\ ~r.pn THEN C07To(M, obj, r.tf) ELSE {})
-  /\ UNCHANGED <<sh, M, obj>>
-
-CopyFrom ==
-  /\ At("CopyFrom") /\ Advance("CopyFrom", NoArg)
-  /\ LET r == FromMsg(M, tf, obj)
-         fresh == obj = M.zero
-         rtctx == [M |-> M, orig |-> rt.orig, back |-> r.obj]
-     IN /\ obj' = r.obj /\ dg' = r.dg /\ pn' = r.pn
-        /\ rt' = NoRT
-        /\ viol' = viol
-             \cup (IF rt.armed /\ fresh /\ ~r.pn /\ Wants("C04") THEN C04(rtctx) ELSE {})
-             \cup (IF rt.armed /\ fresh /\ ~r.pn /\ Wants("C19") THEN C19(rtctx) ELSE {})
-             \cup (IF rt.armed /\ fresh /\ r.pn /\ (Wants("C04") \/ Wants("C19")) THEN {[c |-> "C04.roundtrip", p |-> M.path, sig |-> PanicSig(M, obj)]} ELSE {})
-             \cup (IF Wants("C07") /\ ~r.pn /\ Conforms(tf, M.tt) THEN C07From(M, tf, r.obj) ELSE {})
-  /\ UNCHANGED <<sh, M, tf>>
+\* data the scripts choose from (a model configuration may narrow them)
+ObjChoices == MsgVals(M, Deep, FALSE)
+PlanChoices == MsgPlans(M, FALSE, FALSE)
+RawChoices == MsgPlans(M, TRUE, FALSE)
 
 Next ==
-  \/ At("SetObj") /\ \E v \in MsgVals(M, Deep, FALSE) : SetObj(v)
+  \/ At("SetObj") /\ \E v \in ObjChoices : SetObj(v)
   \/ FreshObj \/ NewEmpty \/ CopyTo \/ CopyFrom
-  \/ At("LoadPlan") /\ \E p \in MsgPlans(M, FALSE, FALSE) : Load("LoadPlan", p)
-  \/ At("LoadRaw") /\ \E p \in MsgPlans(M, TRUE, FALSE) : Load("LoadRaw", p)
+  \/ At("LoadPlan") /\ \E p \in PlanChoices : Load("LoadPlan", p)
+  \/ At("LoadRaw") /\ \E p \in RawChoices : Load("LoadRaw", p)
 
 Spec == Init /\ [][Next]_vars
 
